@@ -615,7 +615,7 @@ pub struct Memory {
     cells: Vec<Cell>,
     first_free: usize,
     pub stdout: Box<dyn Write>,
-    pub stdin:  Box<dyn Read>,
+    pub stdin:  std::io::BufReader<Box<dyn Read>>,
     pub umbilical: Option<UmbilicalLowEnd>,
 }
 
@@ -628,7 +628,7 @@ impl Memory {
                cells:          (0 .. config::INITIAL_FREE_CELLS).map(|_| Default::default()).collect(),
                first_free:     0,
                stdout:         Box::new(std::io::stdout()),
-               stdin:          Box::new(std::io::stdin()),
+               stdin:          std::io::BufReader::new(Box::new(std::io::stdin())),
                umbilical:      None}
     }
 
@@ -637,7 +637,7 @@ impl Memory {
     }
 
     pub fn set_stdin(&mut self, stdin: Box<dyn Read>) {
-        self.stdin = stdin;
+        self.stdin = std::io::BufReader::new(stdin);
     }
 
     pub fn attach_umbilical(&mut self, umbilical: UmbilicalLowEnd) {
